@@ -64,7 +64,9 @@ class GopherEntry:
         # Abstract, etc.
 
     def populatefromvfs(self, vfs: VFS_Real, selector: str) -> None:
-        self.populatefromfs(selector, statval=vfs.stat(selector), vfs=vfs)
+        # populatefromfs() stats the object itself and leaves the entry alone
+        # if that fails (the object may have vanished since it was listed).
+        self.populatefromfs(selector, vfs=vfs)
 
     def populatefromfs(
         self,
